@@ -60,7 +60,7 @@ CHECKS = {
                         "expected end-stream plaintext is produced with the repository's own compressors (their correctness is C20's subject)"],
     }),
     "C16": dict(TRACER_BASE, **{
-        "extra_parts": ["C16F"],  # the runner's consumer side (results.go fetchTrace), own test binary
+        "extra_parts": ["C16F", "C16W"],  # the runner's consumer side (results.go fetchTrace), own test binary
         "scenarios": [{"name": "c16-slots", "share": 0.5}, {"name": "c16-builder", "share": 0.5}],
         "budget": {"quick": {"seconds": 30, "workers": 16}, "thorough": {"seconds": 900, "workers": 16}},
         "rule": "c16-slots: 2-5 tasks issue 1-4 seeded operations each (Init, Complete with a unique trace, Await with a fake-clock deadline of 1 ms..5 s, Clear) on up to 3 test names, with seeded pauses; every scheduling decision from the tape; the step at which each operation's critical section ran is read off the scheduler's step records and a sequential slot model is replayed in that order. c16-builder: one traced HTTP operation through TracingRoundTripper or TracingHandler with request body, response body (or transport error), application reads/early close and context cancellation issued from 2-4 concurrent tasks at seeded instants. Distinct = hash of the step log + operations; non-trivial = at least one preemption (or a cancellation).",
